@@ -182,14 +182,14 @@ def render(am, rng, allow_any=True, allow_split=True, force=None):
             owners = {owner.get(i) for i in mine}
             if len(owners) == 1 and None not in owners:
                 o = next(iter(owners))
-                if sorted(group[o]) == sorted(mine) and o not in alias and rng.random() < 0.8:
+                if sorted(group[o]) == sorted(mine) and o not in alias and o not in extends and rng.random() < 0.8:
                     alias[e] = o
                     continue
             free = [i for i in mine if i not in owner]
             named = owners - {None}
             if (free and len(named) == 1 and rng.random() < 0.6):
                 o = next(iter(named))
-                if set(group[o]) <= set(mine) and o not in alias and o not in any_evs:
+                if set(group[o]) <= set(mine) and o not in alias and o not in any_evs and o not in extends:
                     extends[e] = o
             if e not in extends and rng.random() < 0.25 and len(free) > 1:
                 free = rng.sample(free, rng.randint(1, len(free) - 1))
@@ -551,6 +551,8 @@ def _kw_lines(kw):
             parts.append("s " + _lst(EV0 + e for e in it[1]))
         elif it[0] == "o":
             parts.append(f"o {EV0 + it[1]}")
+        elif it[0] == "u":
+            parts.append(f"p {EV0 + 50 + it[1]}")     # a placeholder object that is bound to no attribute
         else:
             parts.append(f"p {EV0 + it[1]}")
     parts.append("1" if kw["internal"] else "0")
@@ -641,6 +643,8 @@ def python_source(am, prog, clsname="M"):
                 for it in items:
                     if it[0] == "s":
                         rs.append(repr(" ".join(evname(e) for e in it[1])))
+                    elif it[0] == "u":
+                        rs.append(f"Event(name={('N u' + str(it[1]))!r})")
                     elif it[0] == "o":
                         rs.append(f"Event({evname(it[1])!r})" if (it[1] % 2) else f"Event({evname(it[1])!r}, name={('N ' + evname(it[1]))!r})")
                     else:
@@ -754,3 +758,20 @@ def styles_differ(tags_list):
             if len(tags_list[i] ^ tags_list[j]) >= 2:
                 return True
     return False
+
+
+def poison(prog, am, rng, kind):
+    """append a statement that makes the definition invalid (every rendering must then be rejected)"""
+    nonfinal = [s["k"] for s in am["states"] if not s["final"]]
+    a = rng.choice(nonfinal)
+    b = rng.choice([s["k"] for s in am["states"] if s["k"] != a])
+    kw = dict(event=dict(items=[("s", [0])], aslist=False), internal=False, validators=(), cond=(), unless=(),
+              before=(), on=(), after=())
+    if kind == "internal":
+        kw["internal"] = True
+    else:
+        kw["event"] = dict(items=[("u", 0)], aslist=rng.random() < 0.5)
+    st = ("bare", ("to", a, [b], kw) if rng.random() < 0.5 else ("from", b, [a], kw))
+    classes = [list(c) for c in prog["classes"]]
+    classes[-1].append(st)
+    return dict(classes=classes, tags=set(prog["tags"]) | {"invalid_" + kind})
